@@ -816,6 +816,8 @@ def scale_spec(s, S):
             out[k] = scale_spec(v, S)
         else:
             out[k] = v
+    if s.get("prim") == "polyhedron" and S > 1 and "tol" not in s:
+        out["tol"] = 1e-5 * S        # the documented knob of the mesh classes for coordinates far above 1
     return out
 
 
